@@ -9,6 +9,15 @@ rnd, base = int(sys.argv[1]), sys.argv[2]
 only = [a.upper() for a in sys.argv[3:]]
 
 FLAVOUR = {
+    7: ("Produce a change that is DIFFERENT from all of those - a different function and a different trigger. Any style is welcome; think of what "
+        "a harness built from the earlier attempts would still not exercise, for example: larger or more irregular instances than small examples; "
+        "a second or third call on the same object with other arguments; valid but unusual combinations of attributes (a module that is at once "
+        "terminal and fixed, a net that names the same module twice, a region tag that looks like a keyword, an area given per region together with "
+        "rectangles in other regions); quantities that are exactly zero, exactly equal or exactly at a limit at ordinary scales; behaviour that "
+        "depends on the order in which things are listed; something left behind in the object or the process by an earlier successful or failed "
+        "call; a caller-supplied object that is modified; text vs parsed-tree vs file input. The change must be plausible as an honest regression "
+        "(a refactoring, an optimisation, a 'fix' for something else) and must keep the 46 tests green. Avoid changes whose only effect is at absurd "
+        "numeric scales (1e-10 or 1e+10)."),
     6: ("Produce a change of a DIFFERENT kind from all of those, in one of these styles: (i) a different ACCESS PATH to the same result: a public "
         "method / property / operator / optional argument of the anchored classes that callers may legitimately use instead of the usual one "
         "(another getter, a cached list, __eq__ / __hash__ / __str__ / duplicate(), a keyword argument, a default value, returning a string vs "
